@@ -866,6 +866,88 @@ def h_shared(ctx):
     c02.j_forward(ctx)
 
 
+@R.clause("C14.j", "what is confirmable on the wire is confirmable for the bookkeeping: the message type is compared by identity only over a closed domain (every store into <message>.mtype puts None or a member of Type there)")
+def j(ctx):
+    """The clauses above evaluate the type decisions of send_message / _send_initially over the finite domain
+    {CON, NON, ACK, RST, None} and treat `mtype == CON`, `mtype is CON` and `mtype in (CON, ..)` as the same test.
+    That is justified by an invariant two sites maintain together:
+
+    * site A, every store into the `mtype` attribute of a message (Message.__init__, copy, decode, the defaulting in
+      send_message, the proxy, ...) stores None or a *member* of the enumeration `Type` (members are singletons:
+      `Type(x)` returns the member itself), never the plain wire number;
+    * site B, the decisions of the message layer that compare the attribute by identity (`is CON` opens the
+      exchange in _send_initially, `is CON` answers duplicates, `is RST` ...).
+
+    `Type` is an IntEnum: a message whose type is the plain integer 0 is `== CON`, is serialised as a confirmable
+    message and is retransmitted by nobody, because `0 is CON` is false -- no exchange is opened and no backlog
+    entry is created, so every further CON to that peer goes on the wire at once (NSTART=1 broken) while
+    send_message (equality) takes it for a CON.  Either site may change: when no decision of the message layer
+    compares by identity any more, the stores are free; while one does, every store must stay inside the domain.
+
+    Decided by abstract evaluation (K.FieldDomain: forward data-flow per function with refinement at branch
+    outcomes, truthiness-aware `and` / `or` / conditional expressions, calls into the package followed) of the
+    value of every store, in every spelling of a store -- never by the text of the constructor."""
+    prog = ctx.prog
+    fd = K.FieldDomain(prog, "mtype", "numbers.types.Type")
+    ctx.need(fd.is_enum and len(fd.members) >= 4, "numbers.types.Type is not an enumeration with the four message types: the domain of `mtype` is not what the rule understands")
+    msg = prog.cls("message.Message")
+    ctx.need("mtype" not in msg.methods, "Message.mtype is a method / property: its storage is outside the rule's vocabulary")
+    cls = prog.cls("messagemanager.MessageManager")
+
+    # site B: identity comparisons of a message type with a member of Type in the message layer
+    ident = []
+    for mfi in cls.methods.values():
+        sc = K.Scope(mfi)
+
+        def is_type_read(e):
+            e = sc.deref(e) if isinstance(e, ast.Name) else e
+            return isinstance(e, ast.Attribute) and e.attr == "mtype"
+
+        def is_member(e):
+            head = e
+            while isinstance(head, ast.Attribute):
+                head = head.value
+            if not isinstance(head, ast.Name) or head.id in fd.locals_of(mfi):
+                return False
+            return fd.member_of(mfi.module, e) is not None
+
+        for n in ast.walk(mfi.node):
+            if not isinstance(n, ast.Compare):
+                continue
+            left = n.left
+            for op, right in zip(n.ops, n.comparators):
+                if isinstance(op, (ast.Is, ast.IsNot)) and ((is_type_read(left) and is_member(right)) or (is_type_read(right) and is_member(left))):
+                    ident.append((mfi, ast.Compare(left=left, ops=[op], comparators=[right])))
+                left = right
+    where = sorted({"%s: `%s`" % (f_.name, K.txt(c_)) for f_, c_ in ident})
+    if not ident:
+        ctx.note("no decision of MessageManager compares a message type by identity: the representation of `mtype` is immaterial to the bookkeeping")
+
+    # site A: the stores
+    stores = fd.stores()
+    ctx.floor("stores into <message>.mtype in the package", len(stores), 5)
+    in_msg = [s_ for s_ in stores if s_[0] is not None and s_[0].short.startswith("message.Message.")]
+    ctx.floor("stores into .mtype by the methods of Message (constructor, copy, decode)", len(in_msg), 2)
+    cv = prog.class_attr(msg.qn, "mtype")
+    if cv is not None and cv[0] is not None:
+        vals = fd.eval(None, cv[1].module, cv[0], {})
+        bad = sorted(w for k, w, _ in vals if k != "none" and k != "member")
+        ctx.need(not bad or not ident, "the class-level default of Message.mtype is %s: outside the rule's vocabulary" % ", ".join(bad))
+    for fi, module, stmt, value, fixed, how in stores:
+        ctx.need(fi is not None, "`%s` stores a message type at module / class level: when it runs is outside the rule's vocabulary" % stmt_text(stmt))
+        vals = fd.stored_values(fi, module, stmt, value, fixed)
+        if vals is None:
+            ctx.note("%s: `%s` is unreachable" % (fi.short, stmt_text(stmt)))
+            continue
+        raw = sorted({w for k, w, _ in vals if k == "raw"})
+        opq = sorted({w for k, w, _ in vals if k == "opaque"})
+        if ident and opq and not raw:
+            ctx.need(False, "%s: what `%s` stores as the message type is not traced (%s)" % (fi.short, stmt_text(stmt), "; ".join(opq)))
+        ctx.ob("a message's type is stored as None or as a member of Type wherever the message layer compares it by identity (a plain 0 is serialised as CON, but opens no exchange and creates no backlog entry)",
+               not ident or not raw, fi, stmt,
+               detail=("may store %s; compared by identity in %s" % ("; ".join(raw + opq), "; ".join(where))) if raw and ident else None)
+
+
 F_MM = "aiocoap/messagemanager.py"
 R.seed("C14.a", F_MM, "        self.log.debug(\"Exchange removed, message ID: %d.\", message.mid)\n\n        self._continue_backlog(message.remote)\n", "        self.log.debug(\"Exchange removed, message ID: %d.\", message.mid)\n", "backlog never continued")
 R.seed("C14.a", F_MM, "        if message.remote not in self._backlogs:\n            self._backlogs[message.remote] = []\n", "", "no backlog entry for the new exchange")
@@ -901,3 +983,9 @@ R.seed("C14.i", F_MM, "            (messageerror_monitor, cancellable_timeout) =
 R.seed("C14.e", F_MM, "        rst = Message(_mtype=RST, _mid=message.mid, code=EMPTY, payload=b\"\")\n        rst.remote = message.remote.as_response_address()\n        # not going via send_message because that would strip the mid, and we\n        # already know that it can go straight to the wire\n        self._send_initially(rst)", "        rst = Message(_mtype=CON, _mid=message.mid, code=EMPTY, payload=b\"\")\n        rst.remote = message.remote.as_response_address()\n        self._send_via_transport(rst)", "a confirmable message handed to the transport directly: neither queued nor tracked")
 R.seed("C14.e", F_MM, "            self._backlogs[message.remote].append((message, messageerror_monitor))\n        else:\n            self._send_initially(message, messageerror_monitor)", "            self._backlogs[message.remote].append((message, messageerror_monitor))\n        else:\n            self._store_response_for_duplicates(message)\n            self._send_via_transport(message)", "send_message hands what it does not queue directly to the transport: the first CON to a peer opens no exchange, so nothing is ever held back")
 R.seed("C14.f", F_MM, "                error.ConRetransmitsExceeded(\"Retransmissions exceeded\"), message.remote\n            )\n", "                error.ConRetransmitsExceeded(\"Retransmissions exceeded\"), message.remote\n            )\n            if message.remote in self._backlogs:\n                self._continue_backlog(message.remote)\n", "after failing the held-back requests the time-out still tries to release them")
+
+# fifth pass: the domain of the message type (identity comparisons need members of Type, not wire numbers)
+R.seed("C14.j", "aiocoap/message.py", "            self.mtype = Type(_mtype)\n", "            self.mtype = _mtype\n", "the constructor stores the caller's wire number as is: Message(_mtype=0) is a CON on the wire but `is CON` is false, no exchange is opened")
+R.seed("C14.j", "aiocoap/message.py", "        new.mtype = Type(kwargs.pop(\"mtype\")) if \"mtype\" in kwargs else self.mtype\n", "        new.mtype = kwargs.pop(\"mtype\", self.mtype)\n", "copy(mtype=0) yields a confirmable message the bookkeeping does not recognise")
+R.seed("C14.j", "aiocoap/message.py", "        msg.mtype = Type(mtype)\n", "        msg.mtype = mtype\n", "decoded messages carry the plain two-bit number: no incoming type is ever `is CON` / `is RST`")
+R.seed("C14.j", "aiocoap/message.py", "        if _mtype is None:\n            # leave it unspecified for convenience, sending functions will know what to do\n            self.mtype = None\n        else:\n            self.mtype = Type(_mtype)\n", "        self.mtype = _mtype if not _mtype else Type(_mtype)\n", "only truthy wire numbers are normalised: 0 (CON) stays a plain integer")
